@@ -279,7 +279,7 @@ def main():
     res = ck.step_generate('Gen_C02', TARGETS)
     if res is not None:
         ck.step_prove('P_C02')
-    n = 160 if ck.thorough() else 32
+    n = 480 if ck.thorough() else 32
     goals = run_cases(ck, res, n, 12 if ck.thorough() else 3)
     if res is not None:
         ck.step_interval_goals('corr', goals)
